@@ -10,6 +10,9 @@ driver runs both on every generated program and both are compared with the real 
     child contexts that can `recover`; recovery returns normally to the caller;
   * `return` and the end of a body run the deferred calls (RunDefers) at that point of the body,
     i.e. still inside the try statements of the same function, and do not clear the list;
+  * `return <expr>`: named results evaluate <expr> and then run the deferred calls; unnamed results
+    run the deferred calls first and evaluate <expr> afterwards (so an <expr> that fails leaves the
+    activation with its deferred calls still registered: they run again);
   * an error coming out of a deferred call is an error of the RunDefers instruction (normal exit)
     or ends the whole context (panic unwinding); an unrecovered panic inside a deferred call ends
     that child context with ErrPanicUnhandled, which its parent sees as such an error.
@@ -61,9 +64,29 @@ def execS : Nat → Prog → W → Stmt → Sig × W
       match runDefers fuel p w w.defers with
       | (.normal, w') => (.ret, w')
       | r => r
+    | .retE true e =>
+      match evalE fuel p w e with
+      | (.normal, w1) =>
+        (match runDefers fuel p w1 w1.defers with
+         | (.normal, w2) => (.ret, w2)
+         | r => r)
+      | r => r
+    | .retE false e =>
+      match runDefers fuel p w w.defers with
+      | (.normal, w1) =>
+        (match evalE fuel p w1 e with
+         | (.normal, w2) => (.ret, w2)
+         | r => r)
+      | r => r
     | .loop _ n b => execLoop fuel p w n b
     | .brk => (.brk, w)
     | .cont => (.cont, w)
+/-- the expression of a `return <expr>` -/
+def evalE : Nat → Prog → W → RExpr → Sig × W
+  | 0, _, w, _ => (.nofuel, w)
+  | _ + 1, _, w, .mkv k => (.normal, { w with trace := .mark k :: w.trace })
+  | fuel + 1, p, w, .call f => activation fuel p w f
+  | _ + 1, _, w, .div => (.err .div, w)
 def execB : Nat → Prog → W → Block → Sig × W
   | 0, _, w, _ => (.nofuel, w)
   | _ + 1, _, w, [] => (.normal, w)
